@@ -294,6 +294,7 @@ class TransitHints(Job):
             except (core.Escape, core.Inconclusive, core._Abort, core.Counterexample):
                 raise
             except Exception as e:
+                core.check_leak(e)
                 err = ("add_connection_hints", type(e).__name__, str(e)[:100])
             if err is None:
                 o.get_connection_hints()
@@ -311,6 +312,7 @@ class TransitHints(Job):
                 except (core.Escape, core.Inconclusive, core._Abort, core.Counterexample):
                     raise
                 except Exception as e:
+                    core.check_leak(e)
                     err = ("connect", type(e).__name__, str(e)[:100])
                 if err is None and res and res[0] not in ("ok", "TransitError", "CancelledError"):
                     err = ("connect", res[0], "connect() failed with an unexpected error")
